@@ -62,7 +62,12 @@ def perturb(rng, t):
     if r < 0.45:
         return m, kind
     nodes = m['nodes']
-    choice = rng.choice(['atomid', 'attr', 'nrexcl', 'edge', 'inter', 'order', 'name', 'oldresid', 'oldresid', 'morei', 'morei'])
+    choice = rng.choice(['atomid', 'attr', 'nrexcl', 'edge', 'inter', 'order', 'name', 'oldresid', 'oldresid', 'morei', 'morei', 'dropid', 'dropid'])
+    if choice == 'dropid' and any(nd['atomid'] is not None for nd in nodes):
+        # the same molecule without an attribute the other one has (the atom ids): absent is not equal to present
+        for nd in nodes:
+            nd['atomid'] = None
+        return m, 'dropid'
     if choice == 'morei':
         # the same molecule with one more interaction at the end of a list: the shorter list is a prefix of the longer
         m['xinter'] = m.get('xinter', 0) + 1
